@@ -46,7 +46,7 @@ def shards(tier, seed):
     for ch in spaces.chunks(cfgs, max(1, len(cfgs) // 12)):
         sh.append(dict(stratum='relabelling: bilinear and linear operators on all blades / blade pairs, accessors with every spelling', cfgs=ch, kind='blades'))
     nl = [c for c in cfgs if len(ref_from_config(c).metric) <= 3]
-    nl = nl[::3] if tier == 'quick' else nl[::12]
+    nl = nl[::3] if tier == 'quick' else nl[::30]
     for ch in spaces.chunks(nl, max(1, len(nl) // 6)):
         sh.append(dict(stratum='relabelling: inverse, division, sandwich, projection, norms, outer exponentials on subsets with Fraction values', cfgs=ch,
                        kind='nonlinear', maxsize=2 if tier == 'quick' else 3))
